@@ -227,6 +227,12 @@ def _callables(desc):
         T = int(round(T))
     if desc.get("int_params"):
         T, api, gor = int(round(T)), int(round(api)), int(round(gor))
+    if not desc.get("int_params") and not desc.get("zero_d_params") and int(float(desc["oil"][3]) * 10) % 3 == 0:
+        # fluid parameters as NumPy scalars (a value read from a DataFrame row, a CSV, an array element) with a
+        # GOR that float32 cannot represent: NumPy compares a float32 array with np.float64 in double precision,
+        # with a Python float in single precision - the result may not depend on which of the two the caller holds
+        T, api, gg, gor = np.float64(T), np.float64(api), np.float64(gg), np.float64(float(gor) + 0.3)
+        _NP_TYPED[0] += 1
     zero_d = []
     if desc.get("zero_d_params"):
         # fluid parameters that arrive as 0-d arrays (np.asarray(x), np.squeeze of a one-cell table,
@@ -237,7 +243,7 @@ def _callables(desc):
     _ZERO_D.append(zero_d)
 
     def plain(a):
-        return float(a) if isinstance(a, np.ndarray) and a.ndim == 0 else a
+        return float(a) if (isinstance(a, np.ndarray) and a.ndim == 0) or isinstance(a, np.floating) else a
     fn = desc["fn"]
     sal, Tw = desc["salinity"], desc["water_T"]
     if desc["int_temperature"]:
@@ -298,6 +304,7 @@ def _callables(desc):
 
 
 ACCEPTED_FORMS = {}
+_NP_TYPED = [0]
 
 
 def run_case(ck, desc):
